@@ -24,7 +24,8 @@ EXPLANATION = (
     'that becomes the precoder (every user exactly its power). C09.d: the returned effective channel is channel x the '
     'returned precoder. C09.e: precoder, receive filter and stream count of a user are selected with the same index and '
     'stem from the same reduction matrix. C09.f: every metric name the setter accepts is dispatched to a variant that can '
-    'handle it. Not decided: block diagonality, nulling of external interference, filter inversion as numbers.')
+    'handle it. Not decided: block diagonality, nulling of external interference, filter inversion as numbers.'
+    ' General rules also applied here (see DESIGN 10.5): validate-before-commit (no `raise` reachable after the object was already changed in a public mutator).')
 
 
 def _term(fn: FuncInfo, e: ast.AST, M: Model) -> T.Term:
